@@ -745,7 +745,7 @@ class Path:
         new_t = TType()
         new_path = cur_t_path[start:stop]
         if step is not None and step != 1:
-            new_path = tuple(zip(new_path[::2], new_path[1::2]))[::step]
+            new_path = tuple(zip(cur_t_path[1::2], cur_t_path[2::2]))[i]
             new_path = sum(new_path, ())
         new_t.__ops__ = (cur_t_path[0],) + new_path
         return Path(new_t)
